@@ -5,7 +5,7 @@
     implementation on every run). *)
 From Coq Require Import ZArith List Bool.
 From Hts Require Import Base.Prim Generated Model.Index Model.Tabix Model.IndexSpec Model.IndexIO
-  Proofs.IndexStats Proofs.IndexIO Proofs.IndexIOFull Proofs.IndexFinal.
+  Proofs.IndexStats Proofs.IndexIO Proofs.IndexIOFull Proofs.IndexFinal Proofs.TabixIO.
 Open Scope Z_scope.
 
 (** Statistics are true: for EVERY record list that Add accepts (whatever its
@@ -55,13 +55,25 @@ Theorem chunks_preserved :
 Proof. exact bai_io_preserves. Qed.
 Print Assumptions chunks_preserved.
 
+(** tabix, byte level, for EVERY tabix index that fits ([tbx_fits]: header
+    values in range, names without NUL bytes and pairwise different, one name
+    per reference, numbers fit their fields, core in sorted order after sort):
+    ReadFrom of what WriteTo wrote gives the same header and names, the name map
+    0..n-1 and the sorted core; writing that gives the same bytes. *)
+Theorem tabix_io_roundtrip :
+  forall t, tbx_fits t ->
+    tbx_read (fst (tbx_write t)) = Ok (Some (tbx_reread t)) /\
+    fst (tbx_write (tbx_reread t)) = fst (tbx_write t).
+Proof. exact (fun t H => conj (tbx_read_write t H) (tbx_write_read_write t)). Qed.
+Print Assumptions tabix_io_roundtrip.
+
 (** Answers are preserved: an index whose reference structure is that of the
     sorted index (this is what write followed by read produces, whatever
     LastRecord is) answers every query exactly like the original.
-    PARTIAL: for BAI the premise [irefs ix2 = irefs (ix_sort ix)] is
-    discharged by [index_io_roundtrip] (see [chunks_preserved]); for CSI and
-    tabix [ix2 = read (write ix)] is validated by the correspondence run only
-    (this structural statement is what their readers have to establish). *)
+    PARTIAL: for BAI and tabix the premise [irefs ix2 = irefs (ix_sort ix)] is
+    discharged by [index_io_roundtrip] / [tabix_io_roundtrip] (see
+    [chunks_preserved] and C04's [tabix_complete_after_write_read]); for CSI
+    [ix2 = read (write ix)] is validated by the correspondence run only. *)
 Theorem chunks_preserved_partial :
   forall ix ix2 rid beg end_,
     irefs ix2 = irefs (ix_sort ix) -> isorted ix2 = true ->
